@@ -54,6 +54,15 @@ def units(ctx):
     from contracts import yaqltypes as _yt
     us += [contract_unit(c, world_setup=_yt.setup)
            for c in _yt.contracts() if 'C05' in c.serves]
+    from props._common import bounded_unit
+    us.append(bounded_unit(
+        'bounded:c05-signatures', 'c05_signatures.py',
+        'BOUNDED: 288 Python signature shapes (0..2 positional parameters, '
+        'defaults None / 0 / str on a suffix, *args, keyword-only with and '
+        'without default, **kwargs): the recorded FunctionDefinition agrees '
+        'with inspect.signature (default, position, inferred type, keyword '
+        'name under both conventions in either registration order); values '
+        'of any type are accepted in the *args region'))
     return us
 
 
